@@ -57,4 +57,29 @@ probe_all! {
     PRED_ALTGR: bool = Modifiers { lshift: false, rshift: false, lctrl: true, rctrl: false, numlock: false, capslock: false, lalt: true, ralt: false, rctrl2: false }.is_altgr();
     PRED_NOT_ALTGR: bool = Modifiers { lshift: false, rshift: false, lctrl: false, rctrl: false, numlock: false, capslock: false, lalt: true, ralt: false, rctrl2: true }.is_altgr();
     PRED_CAPS: bool = Modifiers { lshift: true, rshift: false, lctrl: false, rctrl: false, numlock: false, capslock: true, lalt: false, ralt: false, rctrl2: false }.is_caps();
+
+    // every key code through the const constructor (a const fn whose cost or validity depends on the key), and the
+    // five predicates on all 512 modifier values, folded into one number each
+    EVENTS_ALL_KEYS: u32 = {
+        let ks = [KeyCode::Escape, KeyCode::F1, KeyCode::F2, KeyCode::F3, KeyCode::F4, KeyCode::F5, KeyCode::F6, KeyCode::F7, KeyCode::F8, KeyCode::F9, KeyCode::F10, KeyCode::F11, KeyCode::F12, KeyCode::PrintScreen, KeyCode::SysRq, KeyCode::ScrollLock, KeyCode::PauseBreak, KeyCode::Oem8, KeyCode::Key1, KeyCode::Key2, KeyCode::Key3, KeyCode::Key4, KeyCode::Key5, KeyCode::Key6, KeyCode::Key7, KeyCode::Key8, KeyCode::Key9, KeyCode::Key0, KeyCode::OemMinus, KeyCode::OemPlus, KeyCode::Backspace, KeyCode::Insert, KeyCode::Home, KeyCode::PageUp, KeyCode::NumpadLock, KeyCode::NumpadDivide, KeyCode::NumpadMultiply, KeyCode::NumpadSubtract, KeyCode::Tab, KeyCode::Q, KeyCode::W, KeyCode::E, KeyCode::R, KeyCode::T, KeyCode::Y, KeyCode::U, KeyCode::I, KeyCode::O, KeyCode::P, KeyCode::Oem4, KeyCode::Oem6, KeyCode::Oem5, KeyCode::Oem7, KeyCode::Delete, KeyCode::End, KeyCode::PageDown, KeyCode::Numpad7, KeyCode::Numpad8, KeyCode::Numpad9, KeyCode::NumpadAdd, KeyCode::CapsLock, KeyCode::A, KeyCode::S, KeyCode::D, KeyCode::F, KeyCode::G, KeyCode::H, KeyCode::J, KeyCode::K, KeyCode::L, KeyCode::Oem1, KeyCode::Oem3, KeyCode::Return, KeyCode::Numpad4, KeyCode::Numpad5, KeyCode::Numpad6, KeyCode::LShift, KeyCode::Z, KeyCode::X, KeyCode::C, KeyCode::V, KeyCode::B, KeyCode::N, KeyCode::M, KeyCode::OemComma, KeyCode::OemPeriod, KeyCode::Oem2, KeyCode::RShift, KeyCode::ArrowUp, KeyCode::Numpad1, KeyCode::Numpad2, KeyCode::Numpad3, KeyCode::NumpadEnter, KeyCode::LControl, KeyCode::LWin, KeyCode::LAlt, KeyCode::Spacebar, KeyCode::RAltGr, KeyCode::RWin, KeyCode::Apps, KeyCode::RControl, KeyCode::ArrowLeft, KeyCode::ArrowDown, KeyCode::ArrowRight, KeyCode::Numpad0, KeyCode::NumpadPeriod, KeyCode::Oem9, KeyCode::Oem10, KeyCode::Oem11, KeyCode::Oem12, KeyCode::Oem13, KeyCode::PrevTrack, KeyCode::NextTrack, KeyCode::Mute, KeyCode::Calculator, KeyCode::Play, KeyCode::Stop, KeyCode::VolumeDown, KeyCode::VolumeUp, KeyCode::WWWHome, KeyCode::PowerOnTestOk, KeyCode::TooManyKeys, KeyCode::RControl2, KeyCode::RAlt2];
+        let sts = [KeyState::Down, KeyState::Up, KeyState::SingleShot];
+        let mut i = 0;
+        let mut acc = 0u32;
+        while i < ks.len() * 3 {
+            let ev = KeyEvent::new(ks[i / 3], sts[i % 3]);
+            acc = acc.wrapping_mul(31).wrapping_add(ev.code as u32 * 3 + ev.state as u32);
+            i += 1;
+        }
+        acc
+    };
+    PRED_ALL_MODIFIER_VALUES: u32 = {
+        let mut i = 0u32;
+        let mut acc = 0u32;
+        while i < 512 {
+            let m = Modifiers { lshift: i & 1 != 0, rshift: i & 2 != 0, lctrl: i & 4 != 0, rctrl: i & 8 != 0, numlock: i & 16 != 0, capslock: i & 32 != 0, lalt: i & 64 != 0, ralt: i & 128 != 0, rctrl2: i & 256 != 0 };
+            acc = acc.wrapping_mul(33) ^ ((m.is_shifted() as u32) | (m.is_ctrl() as u32) << 1 | (m.is_alt() as u32) << 2 | (m.is_altgr() as u32) << 3 | (m.is_caps() as u32) << 4);
+            i += 1;
+        }
+        acc
+    };
 }
